@@ -315,9 +315,12 @@ func c15writes(env *core.Env, faulty bool) {
 	trackers := [2]*reg.Tracker{reg.NewTracker(), reg.NewTracker()}
 	failed := false // a member write has been made to fail: the members may differ from now on
 	pendingBad := false
+	closeFailed := false
+	badMember := 1
 	badHandle := map[int]bool{}
 	var plan *reg.FaultPlan
 	if faulty {
+		badMember = c.Int("fault.member", 2)
 		rate := c.Range("fault.rate", 3, 10)
 		plan = &reg.FaultPlan{
 			CallErr: func(call *reg.Call) error {
@@ -331,6 +334,14 @@ func c15writes(env *core.Env, faulty bool) {
 				}
 				return nil
 			},
+			WriterCloseFails: func() bool {
+				if c.Bool("closefault?", 1, rate) {
+					failed, closeFailed = true, true
+					env.Fault("member-writer-close-fails")
+					return true
+				}
+				return false
+			},
 			WriterFaults: func(call *reg.Call) (bool, bool) {
 				if c.Bool("writerfault?", 1, rate) {
 					// member 1 hands out a writer whose Write and/or Commit will fail; the
@@ -343,8 +354,10 @@ func c15writes(env *core.Env, faulty bool) {
 			},
 		}
 	}
-	m0 := reg.Wrap(mems[0], trackers[0], nil)
-	m1 := reg.Wrap(mems[1], trackers[1], plan)
+	plans := [2]*reg.FaultPlan{}
+	plans[badMember] = plan
+	m0 := reg.Wrap(mems[0], trackers[0], plans[0])
+	m1 := reg.Wrap(mems[1], trackers[1], plans[1])
 	pol := ociunify.ReadSequential
 	if c.Bool("concurrent", 1, 2) {
 		pol = ociunify.ReadConcurrent
@@ -412,7 +425,7 @@ func c15writes(env *core.Env, faulty bool) {
 							}
 						}
 						if sizes[0] != sizes[1] {
-							env.Failf("C15/writes/UpResume/members-disagree", "after member 1 lost a chunk, PushBlobChunkedResume(offset -1) through the unifier returned a writer (size %d) although member 0 holds %d bytes and member 1 holds %d", w2.Size(), sizes[0], sizes[1])
+							env.Failf("C15/writes/UpResume/members-disagree", "after a member lost a chunk, PushBlobChunkedResume(offset -1) through the unifier returned a writer (size %d) although member 0 holds %d bytes and member 1 holds %d", w2.Size(), sizes[0], sizes[1])
 						}
 					}
 					env.Probe("c15:resume-after-one-sided-loss-accepted")
@@ -421,9 +434,12 @@ func c15writes(env *core.Env, faulty bool) {
 				}
 			}
 		}
+		if closeFailed && op.Kind == reg.UpClose && res.Err == nil {
+			env.Failf("C15/writes/UpClose/success-despite-member-failure", "Close reported success although member %d's writer failed to close", badMember)
+		}
 		// a member write failed at some point: success is reported only if both succeeded
 		if !failedBefore && res.Err == nil && op.Kind != reg.UpWrite && op.Kind != reg.UpStart && op.Kind != reg.UpResume && op.Kind != reg.UpClose {
-			env.Failf("C15/writes/"+op.Kind.String()+"/success-despite-member-failure", "%s reported success although member 1 was made to fail during it", op)
+			env.Failf("C15/writes/"+op.Kind.String()+"/success-despite-member-failure", "%s reported success although member %d was made to fail during it", op, badMember)
 		}
 		if res.Err == nil && isMutating(op.Kind) && op.Kind != reg.UpStart && op.Kind != reg.UpResume {
 			// whatever reports success must be present on both members
